@@ -234,6 +234,12 @@ func (m *vMW) analyse(cred string) vTokAnalysis {
 	var claims jwt.Token
 	for _, ak := range m.impl.authorizedKeys {
 		tok, err := jwt.ParseString(cred, jwt.WithKeySet(ak.jwkSet, jws.WithInferAlgorithmFromKey(true)), jwt.WithValidate(false))
+		// "verifies with key i" includes: the header algorithm fits that key (harness's own RFC 7518 3.4 re-statement)
+		if err == nil && len(info.Sigs) == 1 {
+			if pk, perr := cryptoPublicKey(ak.key); perr != nil || !VAlgFitsKey(info.Sigs[0].Alg, pk) {
+				err = errors.New("algorithm does not fit the key")
+			}
+		}
 		a.Verifies = append(a.Verifies, err == nil)
 		if err == nil && claims == nil {
 			claims = tok
@@ -797,6 +803,7 @@ func TestVerifC17(t *testing.T) {
 						key, err := keyFunc(info.Sigs[0].Kid)
 						verd["keyfound"] = err == nil
 						if err == nil {
+							verd["fits"] = VAlgFitsKey(info.Sigs[0].Alg, key)
 							_, err = jwt.ParseString(v.Tok, jwt.WithKey(jwa.SignatureAlgorithm(info.Sigs[0].Alg), key), jwt.WithVerify(true))
 							verd["verified"] = err == nil
 						}
@@ -827,6 +834,7 @@ func TestVerifC17(t *testing.T) {
 					// what the library itself says about the (single) signature: jws.Verify over the parsed message
 					if info.Parses && len(info.Sigs) == 1 {
 						if key, err := keyFunc(info.Sigs[0].Kid); err == nil {
+							verd["fits"] = VAlgFitsKey(info.Sigs[0].Alg, key)
 							_, err := jws.Verify([]byte(v.Tok), jws.WithKey(jwa.SignatureAlgorithm(info.Sigs[0].Alg), key))
 							verd["verifiedlib"] = err == nil
 							if !info.SplitOK {
@@ -855,6 +863,7 @@ func TestVerifC17(t *testing.T) {
 					h := msg.Signatures()[0].ProtectedHeaders()
 					tok, err := jwt.ParseString(v.Tok, jwt.WithKey(h.Algorithm(), h.JWK()))
 					verd["verified"] = err == nil
+					verd["fits"] = VAlgFitsKey(string(h.Algorithm()), h.JWK())
 					if err == nil {
 						htu, ok1 := tok.Get("htu")
 						htm, ok2 := tok.Get("htm")
@@ -901,6 +910,7 @@ func TestVerifC17(t *testing.T) {
 							if key != nil {
 								_, err := jws.Verify([]byte(v.Tok), jws.WithKey(h.Algorithm(), key))
 								verd["verified"] = err == nil
+								verd["fits"] = VAlgFitsKey(string(h.Algorithm()), key)
 							}
 						}
 						res := vRecover(func() string {
